@@ -15,7 +15,7 @@ import (
 func init() {
 	vfRegister(&vfProp{
 		id:       "C16",
-		classes:  []string{"os", "rs", "rs", "rs-alloc", "inmem"},
+		classes:  []string{"os", "rs", "rs", "rs-alloc", "inmem", "rs-wire"},
 		gen:      c16Gen,
 		exec:     c16Exec,
 		maxSteps: 400000,
@@ -56,6 +56,19 @@ func c16Gen(class string, seed uint64, tier string) *vfScenario {
 		sc.Cfg["shapes"] = int64(rng.IntN(2)) // 1: entries differ in which attributes they carry
 		sc.Cfg["hopt"] = int64([]int{0, 128}[rng.IntN(2)])
 		sc.Cfg["parkdata"] = int64(rng.IntN(2))
+	case "rs-wire":
+		// a wire-level client lists several directories at once, its READDIR requests pipelined
+		sc.Cfg["kind"], sc.Cfg["wire"] = 1, 1
+		sc.Cfg["alloc"] = int64(rng.IntN(2))
+		B := 1 + rng.IntN(6)
+		sc.Cfg["B"] = int64(B)
+		sc.Cfg["ndirs"] = int64(2 + rng.IntN(2))
+		sc.Cfg["n"] = int64(rng.IntN(3*B + 2))
+		sc.Cfg["liststyle"] = int64(rng.IntN(4))
+		sc.Cfg["hopt"] = int64([]int{0, 128}[rng.IntN(2)])
+		sc.Cfg["window"] = int64([]int{0, 0, 2, 4}[rng.IntN(4)])
+		sc.Cfg["sites"] = int64(1 + rng.IntN(3))
+		return sc
 	case "inmem":
 		sc.Cfg["kind"] = 3
 		B := 1 + rng.IntN(6)
@@ -94,7 +107,126 @@ func c16Names(n int, style int, seed uint64) []string {
 	return out
 }
 
+// c16Wire: several directory handles, READDIR requests of all of them pipelined round-robin; every handle's NAME
+// replies together must hold that directory's entries exactly once, then EOF.
+func c16Wire(r *vfRun) {
+	sc := r.sc
+	B := int(sc.cfg("B", 3))
+	old := MaxFilelist
+	MaxFilelist = int64(B)
+	defer func() { MaxFilelist = old }()
+	nd := int(sc.cfg("ndirs", 2))
+	if nd < 1 || nd > 4 {
+		nd = 2
+	}
+	n := int(sc.cfg("n", 3))
+	prog := []vfOp{{K: "init", A: 3}}
+	sizes := make([]int, nd)
+	for d := 0; d < nd; d++ {
+		sizes[d] = (n + d*(B+1)) % (3*B + 3)
+		prog = append(prog, vfOp{K: "opendir", P: fmt.Sprintf("/w%d", d), H: d})
+	}
+	prog = append(prog, vfOp{K: "wait"})
+	rounds := 3*B + 3 + 2 // enough even if every batch comes back with a single entry
+	for i := 0; i < rounds; i++ {
+		for d := 0; d < nd; d++ {
+			prog = append(prog, vfOp{K: "readdir", H: d})
+		}
+	}
+	for d := 0; d < nd; d++ {
+		prog = append(prog, vfOp{K: "close", H: d})
+	}
+	s := vfStartSession(r, prog)
+	defer s.cleanup()
+	if s.fs == nil {
+		r.res.Skipped = "invalid-program"
+		return
+	}
+	want := make([]map[string]int64, nd)
+	s.fs.mu.Lock()
+	for d := 0; d < nd; d++ {
+		dir := fmt.Sprintf("/w%d", d)
+		s.fs.nodes[dir] = &sfNode{kind: 'd', mode: os.ModeDir | 0o755, mtime: 946684800}
+		want[d] = map[string]int64{}
+		for i := 0; i < sizes[d]; i++ {
+			name := fmt.Sprintf("d%d-e%03d", d, i)
+			s.fs.nodes[dir+"/"+name] = &sfNode{kind: 'f', data: make([]byte, (7*d+i)%40), mode: 0o600, mtime: 1000000000 + int64(i), uid: uint32(100*d + i)}
+			want[d][name] = int64((7*d + i) % 40)
+		}
+	}
+	s.fs.mu.Unlock()
+	sim := s.sim
+	sim.run(nil)
+	if sim.failed() {
+		return
+	}
+	c02CheckReplies(r, s.wc, true)
+	if sim.failed() {
+		r.sim.viol.Class = "C16/" + r.sim.viol.Class[4:]
+		return
+	}
+	got := make([]map[string]int, nd)
+	ended := make([]bool, nd)
+	for d := range got {
+		got[d] = map[string]int{}
+	}
+	for i, op := range s.wc.ops {
+		if op.K != "readdir" || op.H < 0 || op.H >= nd {
+			continue
+		}
+		p := s.wc.replies[i]
+		d := op.H
+		switch {
+		case p.Type == wtName:
+			if ended[d] {
+				r.fail("C16/entry-duplicated", "after-eof", "directory %d: a NAME reply with %d entries after the end of the listing had been reported", d, len(p.Names))
+				return
+			}
+			for _, e := range p.Names {
+				sz, ok := want[d][e.Name]
+				if !ok {
+					r.fail("C16/extra-entry", "foreign", "pipelined listings: the reply %v to a READDIR of directory %d holds %q, which is not in that directory (batch %d, %d directories)", p, d, e.Name, B, nd)
+					return
+				}
+				if e.Attrs.Flags&waSize == 0 || int64(e.Attrs.Size) != sz {
+					r.fail("C16/wrong-attributes", "wire-attrs", "directory %d entry %q came back with size %d, the handler reported %d", d, e.Name, e.Attrs.Size, sz)
+					return
+				}
+				got[d][e.Name]++
+			}
+		case p.Type == wtStatus && p.Code == wsEOF:
+			ended[d] = true
+		default:
+			r.fail("C16/listing-failed", "wire-error", "READDIR of directory %d was answered %v", d, p)
+			return
+		}
+	}
+	for d := 0; d < nd; d++ {
+		if !ended[d] {
+			r.fail("C16/listing-never-terminates", "wire-liveness", "directory %d (%d entries, batch %d): %d READDIR requests did not reach the end of the listing", d, sizes[d], B, rounds)
+			return
+		}
+		for name := range want[d] {
+			if got[d][name] != 1 {
+				cl := "C16/entry-lost"
+				if got[d][name] > 1 {
+					cl = "C16/entry-duplicated"
+				}
+				r.fail(cl, "wire", "pipelined listings: entry %q of directory %d (%d entries, batch %d) was returned %d times", name, d, sizes[d], B, got[d][name])
+				return
+			}
+		}
+	}
+	sim.count("probe.pipelined_listings")
+	s.finish()
+	r.res.NonTrivial = true
+}
+
 func c16Exec(r *vfRun) {
+	if r.sc.cfg("wire", 0) != 0 {
+		c16Wire(r)
+		return
+	}
 	sc, sim := r.sc, r.sim
 	n := int(sc.cfg("n", 3))
 	kind := int(sc.cfg("kind", 0))
